@@ -362,6 +362,18 @@ func (l jsonList) patch(pathBehind, pathAhead Path, before, removeValues, addVal
 		if len(removeValues) > 0 {
 			return nil, fmt.Errorf("invalid patch. appending to -1 index. but want to remove values")
 		}
+		// Context names the neighbours of an index. An append
+		// has no index to check it against.
+		for _, b := range before {
+			if !isVoid(b) {
+				return nil, fmt.Errorf("invalid patch. appending to -1 index. but have before context %v", b)
+			}
+		}
+		for _, a := range after {
+			if !isVoid(a) {
+				return nil, fmt.Errorf("invalid patch. appending to -1 index. but have after context %v", a)
+			}
+		}
 		l = append(l, addValues...)
 		return l, nil
 	}
